@@ -517,6 +517,11 @@ extern "C" {
 
   static dr_clock_t 
   dr_get_tsc() {
+#if defined(MYTH_VERIF)
+    /* virtual clock supplied by the verification simulator, if any */
+    extern unsigned long long (*myth_verif_dr_clock)(void);
+    if (myth_verif_dr_clock) return (dr_clock_t)myth_verif_dr_clock();
+#endif
     return dr_rdtsc();
   }
 
